@@ -6,7 +6,7 @@ same delivered bytes) is drained completely after every event; see DESIGN 5.8.
 from __future__ import annotations
 
 from .. import ber, policy, rfc4511
-from ..values import Gen, canon_msg
+from ..values import Gen, canon_msg, expected_message
 from ..world import Violation
 from .base import PropBase, St, bucket
 
@@ -36,6 +36,7 @@ class C12(PropBase):
         return {"op": "init", "sessions": [{"name": "S", "role": role}, {"name": "T", "role": role}],
                 "illegal_p": rng.choice([0.0, 0.1, 0.3]), "chunk": rng.choice(["mixed", "mixed", "byte", "whole"]),
                 "drain_bias": rng.choice(["mixed", "mixed", "tiny", "lazy"]), "big": rng.choice([0.05, 0.2]),
+                "huge": rng.choice([0.0] * 9 + [0.02]),
                 "bad_text": rng.choice([0.0, 0.0, 0.04]), "style": policy.wire_style(rng)}
 
     def make(self, init):
@@ -49,7 +50,7 @@ class C12(PropBase):
         w = st.w
         init = w.init
         S = w.s["S"]
-        g = Gen(rng, big=init["big"], bad_text=init.get("bad_text", 0.0))
+        g = Gen(rng, big=init["big"], bad_text=init.get("bad_text", 0.0), huge=init.get("huge", 0.0), odd_ints=True)
         model = S.model
         pend = len(w.pending("S"))
         x = rng.random()
@@ -234,6 +235,18 @@ class C12(PropBase):
         if lt["tag"] != _CALL_TAG[m] or lt["id"] != want_id:
             raise Violation(P, "accepted-call-wrong-pdu/%s" % m, "accepted %s (id %s) emitted protocolOp %s id %s" % (
                 m, want_id, lt["tag"], lt["id"]))
+        # "... the encodings of exactly those messages whose send call succeeded": the independent strict decoder must
+        # read the very message the call described (value level; the byte-exact form is not prescribed here)
+        try:
+            got = rfc4511.wire_norm(rfc4511.strict_decode(e))
+        except ber.Malformed as x:
+            raise Violation(P, "accepted-call-wrong-pdu/%s" % m, "the PDU emitted by %s is not readable by the reference decoder: %s" % (m, x))
+        want = rfc4511.wire_norm(expected_message(m, op["a"], want_id))
+        if got != want:
+            diff = [k for k in sorted(set(got) | set(want)) if got.get(k) != want.get(k)]
+            raise Violation(P, "accepted-call-wrong-pdu/%s" % m, "the PDU emitted by %s decodes to a different message than the call "
+                            "described; differing fields %s: emitted %s, described %s" % (
+                                m, diff, [_sh(got.get(k)) for k in diff], [_sh(want.get(k)) for k in diff]))
 
     def finish(self, st):
         w = st.w
@@ -253,6 +266,11 @@ class C12(PropBase):
 
     def distinct_key(self, st):
         return repr((st.w.init["sessions"][0]["role"], st.x["seq"]))
+
+
+def _sh(x):
+    t = repr(x)
+    return t if len(t) < 200 else t[:200] + "..."
 
 
 def st_role_client(m):
